@@ -141,7 +141,7 @@ func offsetsToTry(c *ctx, total int, dense bool) []int {
 }
 
 func checkC17(c *ctx) {
-	c.Rule = "fault enumeration: (A) WriteTo into a writer that accepts exactly k bytes, for EVERY k in [0, length] of each input (quick tier: images above 6000 bytes use the head / footer / flush-boundary / stride offsets), plus transient failures: exactly the n-th write call fails for every n, and destinations rejecting writes above a size; (B) Persist with the process file-size limit (RLIMIT_FSIZE, SIGXFSZ ignored) set to k: every k in the first 64 bytes, the last 80 bytes (footer), around every 4096-byte flush boundary and a stride over the rest; (C) Merge with the merge buffer shrunk to 16-100 bytes and the file-size limit set to k (quick: the footer region, the head and a stride; thorough: every k); plus the no-fault runs (among them images of an exact multiple of 4096 bytes) and (D) Persist / Merge to a destination whose final fsync fails; outcome class (error?, bytes accepted) compared with the extracted buffered-writer model (IO.v) fed with the recorded write sizes; after an error the path must not exist; after success the file is decoded by the extracted parser and compared with the spec; non-trivial = a fault offset strictly inside the output"
+	c.Rule = "fault enumeration: (A) WriteTo into a writer that accepts exactly k bytes, for EVERY k in [0, length] of each input (quick tier: images above 6000 bytes use the head / footer / flush-boundary / stride offsets), plus transient failures: exactly the n-th write call fails for every n, and destinations rejecting writes above a size; (B) Persist with the process file-size limit (RLIMIT_FSIZE, SIGXFSZ ignored) set to k: every k in the first 64 bytes, the last 80 bytes (footer), around every 4096-byte flush boundary and a stride over the rest; (C) Merge with the merge buffer shrunk to 16-100 bytes and the file-size limit set to k (quick: the footer region, the head and a stride; thorough: every k); plus the no-fault runs (among them images of an exact multiple of 4096 bytes) and (C') the segment API's Merge method on ONE persisted and re-opened segment without deletions under the same limits; (D) Persist / Merge to a destination whose final fsync fails; outcome class (error?, bytes accepted) compared with the extracted buffered-writer model (IO.v) fed with the recorded write sizes; after an error the path must not exist; after success the file is decoded by the extracted parser and compared with the spec; non-trivial = a fault offset strictly inside the output"
 	// garbage collector off: what failed operations leave in sync.Pools stays there for the later ones
 	oldGC := debug.SetGCPercent(-1)
 	defer debug.SetGCPercent(oldGC)
@@ -471,7 +471,7 @@ func (cl *closer) ReportBytesWritten(n uint64) {
 }
 
 func checkC18(c *ctx) {
-	c.Rule = "deterministic cancellation without a hook: the StatsReporter passed to Merge is called on every write; the harness closes the close-channel when the cumulative byte count reaches k, for EVERY write boundary k of the fault-free run (between two polls nothing else can be distinguished), plus closed-before-the-call and never-closed, plus closes by a second goroutine at random moments of the merge; inputs with several segments, doc values, deletions (every fourth input set: all documents deleted) and thesauri; allowed outcomes: (ErrClosed and no file) or (nil and a file that decodes, through the extracted parser, to the extracted spec_merge); non-trivial = a close strictly inside the merge"
+	c.Rule = "deterministic cancellation without a hook: the StatsReporter passed to Merge is called on every write; the harness closes the close-channel when the cumulative byte count reaches k, for EVERY write boundary k of the fault-free run (between two polls nothing else can be distinguished), plus closed-before-the-call and never-closed, plus closes by a second goroutine at random moments of the merge, plus a dozen input sets with about 300 fields (over 1024 writes, two thousand of them in the fields section) closed across that section, plus closes at which the caller also unlinks the output path; inputs with several segments, doc values, deletions (every fourth input set: all documents deleted) and thesauri; allowed outcomes: (ErrClosed and no file) or (nil and a file that decodes, through the extracted parser, to the extracted spec_merge); non-trivial = a close strictly inside the merge"
 	c.Assumptions = append(c.Assumptions, "the poll points themselves are not observable without editing the merge; the model (Cancel.v) quantifies over every placement of polls and of the close")
 	savedBuf := zap.DefaultFileMergerBufferSize
 	defer func() { zap.DefaultFileMergerBufferSize = savedBuf }()
